@@ -811,7 +811,7 @@ Lemma series_during_scalar {A} (s : series A) s0 p off eu :
   series_during s (mk_epochs [s0] [p] true off eu) =
   XOk (mk_dout (DOne (map snd (filter (fun tx => in_epoch s0 p (fst tx))
                                       (combine (u_samples (series_time s)) (s_data s)))))
-               (head_ps off) (s_unit s)).
+               (head_ps off) (s_dt s) (s_unit s)).
 Proof.
   intros G H0 Hp lo hi R0 Rp. unfold series_during. cbn [e_scalar e_offset].
   rewrite series_time_wf by auto.
@@ -848,7 +848,7 @@ Proof. intros H F. induction F; constructor; auto. Qed.
 (* epoch arrays: one row per epoch, each row the selection of that epoch; t0 of the result = offset *)
 Lemma series_during_rows {A} (s : series A) e r :
   e_scalar e = false -> series_during s e = XOk r ->
-  d_t0 r = head_ps (e_offset e) /\ d_unit r = s_unit s /\
+  d_t0 r = head_ps (e_offset e) /\ d_dt r = s_dt s /\ d_unit r = s_unit s /\
   exists rows, d_sel r = DRows rows /\ all_same_len rows = true /\
     Forall2 (fun ep row => exists a b, uslice_during (series_time s) ep = XOk (a, b) /\ row = pyslice a b (s_data s))
             (epoch_list e) rows.
@@ -1183,13 +1183,13 @@ Lemma series_during_rows_data {A} (s : series A) e r :
   axis_guard (s_t0 s) (s_dt s) (length (s_data s)) ->
   Forall (fun x => in62 x = true) (e_start e) -> Forall (fun x => in62 x = true) (e_stop e) ->
   e_scalar e = false -> series_during s e = XOk r ->
-  d_t0 r = head_ps (e_offset e) /\ d_unit r = s_unit s /\
+  d_t0 r = head_ps (e_offset e) /\ d_dt r = s_dt s /\ d_unit r = s_unit s /\
   exists rows, d_sel r = DRows rows /\ all_same_len rows = true /\
     Forall2 (fun ep row => exists s0 p, e_start ep = [s0] /\ e_stop ep = [p] /\
                row = map snd (filter (fun tx => in_epoch s0 p (fst tx)) (combine (u_samples (series_time s)) (s_data s))))
             (epoch_list e) rows.
 Proof.
-  intros G Fs Fp Sc H. destruct (series_during_rows s e r Sc H) as (T0 & U & rows & D & SL & F).
+  intros G Fs Fp Sc H. destruct (series_during_rows s e r Sc H) as (T0 & DT & U & rows & D & SL & F).
   repeat split; auto. exists rows. repeat split; auto.
   eapply Forall2_imp_In; [|exact F]. intros ep row Hin (a & b & Us & ->).
   apply epoch_list_In in Hin as (s0 & p & Hs & Hp & ->). exists s0, p. repeat split; auto.
